@@ -206,6 +206,8 @@ void RunCtx::fail(const std::string& clause, const std::string& msg) {
 	throw Violation{clause, msg, variant, opIndex};
 }
 
+uint64_t g_genIndex = 0;
+
 std::vector<Family*>& allFamilies() {
 	static std::vector<Family*> v;
 	return v;
